@@ -60,9 +60,9 @@ def _plan(tier):
                 steps.append({'npr': 2, 'reduced': 2 if tier == 'quick' else 1, 'validate': 20,
                               'shard': {'batch_kind1': b1, 'batch_kind2': b2, 'target_sha_known': sk}})
     k1, k2 = (3, 2) if tier == 'quick' else (4, 3)
-    for e in range(7):
+    for e in range(8):
         hists.append({'npr': 1, 'k': k1, 'shard': {'ev0': e}, 'validate': 6})
-    for e in range(7):
+    for e in range(8):
         for r1 in range(2):
             hists.append({'npr': 2, 'k': k2, 'shard': {'ev0': e, 'init_review_1': r1}, 'validate': 4})
     # status contexts spread over several GraphQL pages: page size read from the query text in the source
@@ -83,11 +83,11 @@ def _plan(tier):
     # deliveries while an update is suspended in a GitHub / batch call (lost or late notifications)
     if tier == 'quick':
         intr = {'budget': 1, 'phases': ['getiter', 'graphql', 'list_batches', 'put'],
-                'kinds': ['label', 'review', 'status', 'batch_done']}
+                'kinds': ['label', 'review', 'status', 'push', 'batch_done']}
     else:
         intr = {'budget': 1, 'phases': ['getitem', 'getiter', 'graphql', 'list_batches', 'post_status', 'batch_submit', 'put'],
                 'kinds': ['label', 'review', 'status', 'push', 'target_move', 'batch_done']}
-    for e in range(7):
+    for e in range(8):
         for r1 in range(2):
             hists.append({'npr': 1, 'k': 2, 'intr': intr, 'shard': {'ev0': e, 'init_review_1': r1}, 'validate': 3})
     return steps, hists
@@ -113,7 +113,8 @@ def run(R):
         'history': f'1 PR: {k1} events; 2 PRs: {k2} events; initial review state of each PR required/approved; '
                    'event kinds push(fresh or any earlier head), review(4 decisions), label toggle(WIP, stacked PR, '
                    'prio:high), status(context ci-test or lint, any commit the PR ever had, 3 states), '
-                   'batch_done(any running batch, success/failure), target_move, poll; plus paginated-status histories: 1 PR whose '
+                   'batch_done(any running batch, success/failure), target_move, poll, push_late (head moves, its webhook reaches CI '
+                   'only after the next event was processed); plus paginated-status histories: 1 PR whose '
                    f'head carries page_size-1 .. page_size+2 extra contexts (one possibly non-success at a symbolic position), '
                    f'{2 if R.tier == "quick" else 3} events from review/batch_done/status/poll',
     }
@@ -122,10 +123,14 @@ def run(R):
         'contexts connection is served in pages of the `first:` size with `after:` cursors; batch '
         'list_batches filters on the attribute tokens the code uses, newest first); DB says every PR author is '
         'authorised and no batch is invalidated',
-        'GitHub refuses a merge whose `sha` is not the current PR head (409), may refuse otherwise (solver choice), '
+        'GitHub merge endpoint as documented: a request carrying `sha` different from the current PR head is refused '
+        '(409), a request without `sha` merges whatever the head is now; GitHub may refuse otherwise (solver choice), '
         'and an accepted merge closes the PR and moves the target branch to a fresh commit',
         'webhooks are reliable and ordered: each external event is followed by notify_github_changed (batch completion: '
         'notify_batch_changed) before the next event; status posts by CI succeed; every status context is required',
+        'oracle on the merged commit: what counts as merged is GitHub\'s head at the moment the merge is accepted; it '
+        'must equal the commit CI verified (its source_sha), unconditionally, and the status / batch components are '
+        'evaluated on that commit',
         'suspension points: in the histories "with an event delivered while an update waits" the fake GitHub/batch calls '
         '(branch ref, PR list, GraphQL page, list_batches, status post, batch submit, merge request — after the answer '
         'was computed, before CI reads it) are points where one more external change plus its real notify_* call may '
